@@ -25,7 +25,7 @@ import importlib.util
 from pathlib import Path
 
 from ..absint import Interp, Raised, Record, Unsupported, _Return
-from ..astx import attr_writes, call_name, dotted, enclosing_stmt, expand, facts_at, kwarg, last, reaching_def
+from ..astx import attr_writes, call_name, dotted, enclosing_stmt, expand, facts_at, has_fact, kwarg, last, reaching_def
 from ..cfg import CFG
 from ..index import AnchorError, FuncNode, enclosing_class, enclosing_function, parent, qualname_of
 from ..selftest import Twin
@@ -292,15 +292,21 @@ class _Drop(Exception):
     pass
 
 
-class _Strip(ast.NodeTransformer):
-    """await x -> x ; async for -> for ; async with -> its body (context manager effects are not modelled)."""
-
-    def visit_Await(self, n):
-        return self.visit(n.value)
-
-    def visit_AsyncFor(self, n):
-        n = self.generic_visit(n)
-        return ast.copy_location(ast.For(target=n.target, iter=n.iter, body=n.body, orelse=n.orelse, type_comment=None), n)
+def _strip(n):
+    """Copy of an AST without parent links in which `await x` is x and `async for` is `for`
+    (context-manager effects are not modelled)."""
+    if isinstance(n, list):
+        return [_strip(x) for x in n]
+    if not isinstance(n, ast.AST):
+        return n
+    if isinstance(n, ast.Await):
+        return _strip(n.value)
+    cls = ast.For if isinstance(n, ast.AsyncFor) else type(n)
+    new = cls(**{f: _strip(getattr(n, f, None)) for f in n._fields})
+    for a in ("lineno", "col_offset", "end_lineno", "end_col_offset"):
+        if hasattr(n, a):
+            setattr(new, a, getattr(n, a))
+    return new
 
 
 class _Sim(Interp):
@@ -335,9 +341,9 @@ class _Sim(Interp):
 def _simulate(c: _Client, frames_fn, events: list[tuple[int, str]], cursor0: int, cuts: list[int | None], boundaries: str) -> tuple[list[tuple[object, object]], str | None]:
     """Interpret the reader's per-connection body over the frame text the server template yields.
     cuts[i] = number of characters of connection i that arrive before the connection drops (None: no drop)."""
-    body = [_Strip().visit(copy.deepcopy(s)) for s in c.stream_with.body]
-    for s in body:
-        ast.fix_missing_locations(s)
+    if not hasattr(c, "sim_body"):
+        c.sim_body = _strip(c.stream_with.body)
+    body = c.sim_body
     delivered: list[Record] = []
     env: dict = {c.queue: Record("Queue"), "httpx": Record("httpx"), "asyncio": Record("asyncio")}
     # parameters of get_workflow_events, then the reader's straight-line prologue (cursor initialisation …)
@@ -830,7 +836,7 @@ def run(chk) -> None:
             tg = a.targets if isinstance(a, ast.Assign) else [a.target] if isinstance(a, (ast.AnnAssign, ast.AugAssign)) else []
             if any(isinstance(t, ast.Name) and t.id == sub_after.id for t in tg) and enclosing_function(a) is res:
                 links += 1
-                guarded = any((f"{sub_after.id} is None", True) in facts_at(rcfg, n) for n in rcfg.nodes_of(a))
+                guarded = any(has_fact(facts_at(rcfg, n), f"{sub_after.id} is None") for n in rcfg.nodes_of(a))
                 chk.ob("C17.R4", f"`{sub_after.id}` is re-assigned only to resolve the `now` cursor (under `{sub_after.id} is None`)", guarded, m=sm, node=a, fn=res, instance="now-resolution",
                        reason="a numeric cursor from the client is overwritten")
     # producer tuple and the frame's slots
